@@ -116,7 +116,27 @@ def check_cases(ck, cases, faulty, tag):
     session as independent runs (distinct executables), batch scheduler."""
     if not cases:
         return
-    scn = {'runs': [dict(c['cfg'], exe=i) for i, c in enumerate(cases)]}
+    # the effective retries / invocations are what the model gets; the implementation has to compute them
+    # from two configuration levels (suite = general, benchmark = specific and winning, or inherited)
+    for c in cases:
+        if 'levels' not in c:
+            lv = {}
+            x = ck.rng.random()
+            if x < 0.35:
+                lv['general_retries'] = ck.rng.choice([2, 3, 4])
+            elif x < 0.5:
+                lv['inherit_retries'] = True
+            y = ck.rng.random()
+            if y < 0.25:
+                lv['general_N'] = c['cfg']['N'] + ck.rng.choice([1, 2, 5])
+            elif y < 0.4:
+                lv['inherit_N'] = True
+            c['levels'] = lv
+        if c['levels'].get('general_retries') is not None:
+            ck.count('levels:retries %s over general' % ('0' if c['cfg']['retries'] == 0 else '>0'))
+        if c['levels'].get('inherit_retries'):
+            ck.count('levels:retries inherited')
+    scn = {'runs': [dict(c['cfg'], exe=i, **c['levels']) for i, c in enumerate(cases)]}
     sess = {'sched': 'batch', 'faulty': faulty, 'scripts': [c['outcomes'] for c in cases]}
     wd = _mkwd(ck)
     obs = ds.run_session(wd, scn, sess)
@@ -150,7 +170,7 @@ def impl_view(obs, i):
 
 def one_case(ck, c, faulty, i, obs, ans, tag):
     cfg = c['cfg']
-    inp = {'kind': 'run', 'cfg': cfg, 'faulty': faulty, 'outcomes': c['outcomes']}
+    inp = {'kind': 'run', 'cfg': cfg, 'faulty': faulty, 'outcomes': c['outcomes'], 'levels': c.get('levels') or {}}
     starts, rows, fin = impl_view(obs, i)
     exp = prop_expect(cfg, faulty, c['outcomes'])
     ck.count('stop:' + str(exp['reason']))
@@ -515,7 +535,8 @@ def run_input(ck, inp, tag):
     elif inp.get('kind') == 'runs':
         check_cases(ck, inp['cases'], inp.get('faulty', False), tag)
     else:
-        check_cases(ck, [{'cfg': inp['cfg'], 'outcomes': inp['outcomes']}], inp.get('faulty', False), tag)
+        check_cases(ck, [{'cfg': inp['cfg'], 'outcomes': inp['outcomes'], 'levels': inp.get('levels') or {}}],
+                    inp.get('faulty', False), tag)
 
 
 def run(ck):
